@@ -1481,7 +1481,7 @@ func TestVerifC03(t *testing.T) {
 	defer out.Close()
 	rd := verifh.NewRand(verifh.Seed())
 	c03Corpus(t, out)
-	ncases, nconc := 2600, 30
+	ncases, nconc := 1500, 20
 	if verifh.Tier() == "thorough" {
 		ncases, nconc = 60000, 300
 	}
